@@ -19,7 +19,10 @@ Record obs := mk_obs {
   ob_written : list oagg;                            (* maps handed to the write-out handler *)
   ob_query : list oagg;                              (* maps returned to live queries *)
   ob_lost : list nat;                                (* packets (table indices) lost to a reported overflow *)
-  ob_overflows : nat                                 (* overflow reports (error log lines) *)
+  ob_overflows : nat;                                (* overflow reports (error log lines) *)
+  ob_stalled : nat                                   (* bounded waits of the harness for the capture routine that
+                                                        expired (a packet taken without the routine coming back or an
+                                                        overflow being reported, a lock cycle that did not return) *)
 }.
 
 (* events refer to a packet table *)
@@ -84,6 +87,7 @@ Definition state_matches (c : case) (s : cstate) (o : obs) : bool :=
   && all2 agg_matches (rev (o_rot k)) (ob_written o)
   && all2 agg_matches (rev (o_query k)) (ob_query o)
   && (cs_overflows s =? ob_overflows o)%nat
+  && (ob_stalled o =? 0)%nat
   && all2 pkt_eqb (filter (fun p => negb (is_invalid p)) (rev (cs_lost s))) (map (pkt_at c) (ob_lost o)).
 
 Definition corr (c : case) : bool :=
@@ -91,13 +95,13 @@ Definition corr (c : case) : bool :=
   state_matches c (crun g (map (ev_of c) (k_evs c))) (k_obs c)
   && state_matches c (crun g (map (ev_of c) (k_ref c))) (mk_obs (ob_v4 (k_robs c)) (ob_v6 (k_robs c))
         (ob_proc (k_robs c)) (ob_total (k_robs c)) (ob_errs (k_robs c)) (ob_status (k_robs c))
-        (ob_written (k_robs c)) (ob_query (k_robs c)) [] 0).
+        (ob_written (k_robs c)) (ob_query (k_robs c)) [] 0 (ob_stalled (k_robs c))).
 
 (* ---- the property on the observed data alone: the paused run and the run with emptied lock
    windows give the same flow log, counters, status results, written and queried maps (everything
    is sorted by the harness); every flow key has the length of its IP version; every packet that is
    missing was reported as a buffer overflow (one report per packet); the reference run itself
-   reports no overflow. *)
+   reports no overflow; the capture routine never left the harness waiting beyond its deadline. *)
 Definition oflow_eqb (a b : string * (N * N * N * N)) : bool :=
   String.eqb (fst a) (fst b) &&
   (let '(a1, a2, a3, a4) := snd a in let '(b1, b2, b3, b4) := snd b in
@@ -124,4 +128,5 @@ Definition holds (c : case) : bool :=
   && all2 oagg_eqb (ob_query o) (ob_query r)
   && keys_len 13 (ob_v4 o) && keys_len 37 (ob_v6 o)
   && (length (ob_lost o) =? ob_overflows o)%nat
-  && (ob_overflows r =? 0)%nat && (length (ob_lost r) =? 0)%nat.
+  && (ob_overflows r =? 0)%nat && (length (ob_lost r) =? 0)%nat
+  && (ob_stalled o =? 0)%nat && (ob_stalled r =? 0)%nat.
